@@ -545,6 +545,49 @@ theorem C09_cycle_message_sound (cfg : Cfg) (wf : cfg.WF) (l : List Node) (h : c
     have hmem : n ∈ rest := List.mem_of_getLast? hlast
     exact ⟨n, rest, rfl, hc, hall n hmem, hall, closed_walk_connectorCycle wf (hall n hmem)⟩
 
+/-! ## validation -/
+
+theorem nodup_of_hasDup_false : ∀ l : List CompId, hasDup l = false → l.Nodup := by
+  intro l
+  induction l with
+  | nil => intro _; simp
+  | cons a l ih =>
+    intro h
+    simp only [hasDup, Bool.or_eq_false_iff, decide_eq_false_iff_not] at h
+    exact List.nodup_cons.mpr ⟨h.1, ih h.2⟩
+
+/-- a configuration that passes validation (and whose pipelines have distinct ids — they are keys of a Go map)
+meets the well-formedness hypothesis of the routing theorems, and every pipeline has a receiver and an exporter -/
+theorem C09_validate_wf (cfg : Cfg) (hids : (cfg.pipes.map (·.id)).Nodup) (hv : validate cfg = []) :
+    cfg.WF ∧ ∀ p, p ∈ cfg.pipes → p.recv ≠ [] ∧ p.exps ≠ [] := by
+  have hnone : ∀ p, p ∈ cfg.pipes → validatePipe p = none := by
+    intro p hp
+    cases hvp : validatePipe p with
+    | none => rfl
+    | some e =>
+      have : e ∈ validate cfg := by
+        simp only [validate, mem_dedup, List.mem_filterMap]
+        exact ⟨p, hp, hvp⟩
+      rw [hv] at this
+      cases this
+  refine ⟨⟨hids, fun p hp => ?_⟩, fun p hp => ?_⟩
+  · have := hnone p hp
+    simp only [validatePipe] at this
+    by_cases h1 : p.recv.isEmpty = true
+    · simp [h1] at this
+    · by_cases h2 : p.exps.isEmpty = true
+      · simp [h1, h2] at this
+      · cases h3 : hasDup p.procs with
+        | true => simp [h1, h2, h3] at this
+        | false => exact nodup_of_hasDup_false _ h3
+  · have := hnone p hp
+    simp only [validatePipe] at this
+    by_cases h1 : p.recv.isEmpty = true
+    · simp [h1] at this
+    · by_cases h2 : p.exps.isEmpty = true
+      · simp [h1, h2] at this
+      · exact ⟨by intro h; simp [h] at h1, by intro h; simp [h] at h2⟩
+
 /-! ## non-vacuity -/
 
 /-- traces/0 and traces/1 share receiver 1 and exporter 1; traces/0 also feeds connector 5 into metrics/0 -/
@@ -555,6 +598,8 @@ def exCfg : Cfg :=
               { id := ⟨.metrics, 0⟩, recv := [5], procs := [1], exps := [2] }] }
 
 example : build exCfg = none := by decide
+example : validate exCfg = [] := by decide
+example : validate { exCfg with pipes := { id := ⟨.logs, 0⟩, recv := [1], procs := [2, 1, 2], exps := [] } :: exCfg.pipes } = [.noExporters] := by decide
 example : exCfg.WF := ⟨by decide, by decide⟩
 example : Node.recv .traces 1 ∈ nodes exCfg := by decide
 example : (nodes exCfg).filter Node.isComp =
